@@ -15,7 +15,10 @@ pub const DIM_NAMES: [&str; NDIMS] = ["width", "rule", "trace_length", "exemptio
 pub const WIDTHS: [usize; 9] = [2, 1, 7, 8, 9, 16, 17, 64, 255];
 pub const LENS: [usize; 6] = [16, 8, 32, 64, 128, 256];
 pub const TAILS: [Tail; 3] = [Tail::Continue, Tail::Zero, Tail::Random];
-pub const AUXS: [Aux; 6] = [Aux::None, Aux::Sum { cols: 1, rands: 1 }, Aux::Sum { cols: 2, rands: 3 }, Aux::Sum { cols: 1, rands: 0 }, Aux::SumLagrange { cols: 1, rands: 1 }, Aux::SumLagrange { cols: 2, rands: 0 }];
+pub const AUXS: [Aux; 8] = [Aux::None, Aux::Sum { cols: 1, rands: 1 }, Aux::Sum { cols: 2, rands: 3 }, Aux::Sum { cols: 1, rands: 0 }, Aux::SumLagrange { cols: 1, rands: 1 }, Aux::SumLagrange { cols: 2, rands: 0 }, Aux::Sum { cols: 1, rands: 1 }, Aux::Sum { cols: 2, rands: 3 }];
+/// degree of the auxiliary transition constraints per auxiliary kind: the last two kinds put the auxiliary
+/// constraints into a higher degree class than the base rule's main constraints (4 and 3 against 2)
+pub const AUX_POWS: [u32; 8] = [1, 1, 1, 1, 1, 1, 4, 3];
 pub const INITS: [u8; 4] = [3, 0, 1, 2];
 pub const QUERIES: [usize; 5] = [3, 1, 2, 27, 255];
 pub const BLOWUPS: [usize; 7] = [4, 2, 8, 16, 32, 64, 128];
@@ -185,7 +188,7 @@ pub fn statement(p: &Point, seed: u64) -> Option<Statement> {
         rules[width - 1] = Rule::Rot { order };
     }
     let aux = AUXS[p.d[6]];
-    let spec = AirSpec { n, rules, exemptions: e, asserts, aux, tail: TAILS[p.d[4]], init: INITS[p.d[7]] };
+    let spec = AirSpec { n, rules, exemptions: e, asserts, aux, aux_pow: AUX_POWS[p.d[6]], tail: TAILS[p.d[4]], init: INITS[p.d[7]] };
     if spec.width() + spec.aux_width() > 255 {
         return None;
     }
